@@ -328,6 +328,54 @@ func main() {
 		fmt.Fprintf(&b, "/-! %s -/\n", ufile)
 		fmt.Fprintf(&b, "/-- `cluster = latest` (the lister's object) is assigned before the conflict check / create / Sync -/\n")
 		fmt.Fprintf(&b, "def controllerAppliesListerObject : Bool := %v\n", usesLister)
+		// the single-threaded argument: how many workers Run starts on the queue (the queue is a passthrough queue,
+		// its items are object pointers, so with more than one worker two versions of one cluster are handled at
+		// once), and that ClusterInfo.Sync is documented as single threaded (it takes no lock)
+		runFn := lib.FuncDecl(uf, "UpstreamClusterController", "Run")
+		if runFn == nil {
+			lib.Fatalf("UpstreamClusterController.Run not found")
+		}
+		workers := ""
+		nRunCalls := 0
+		uconsts := g.Consts(ufile)
+		ast.Inspect(runFn.Body, func(n ast.Node) bool {
+			c, ok := n.(*ast.CallExpr)
+			if !ok || exprString(c.Fun) != "m.queue.Run" || len(c.Args) != 1 {
+				return true
+			}
+			nRunCalls++
+			switch a := c.Args[0].(type) {
+			case *ast.BasicLit:
+				workers = a.Value
+			case *ast.Ident:
+				if v, ok := uconsts[a.Name]; ok {
+					workers = v.ExactString()
+				}
+			}
+			return true
+		})
+		if nRunCalls != 1 || workers == "" {
+			lib.Fatalf("cannot determine the number of workers UpstreamClusterController.Run starts (m.queue.Run calls: %d)", nRunCalls)
+		}
+		if _, err := strconv.Atoi(workers); err != nil {
+			lib.Fatalf("worker count %q is not an integer literal/constant", workers)
+		}
+		fmt.Fprintf(&b, "/-- workers `UpstreamClusterController.Run` starts on the (passthrough) queue -/\n")
+		fmt.Fprintf(&b, "def queueWorkers : Nat := %s\n", workers)
+		passthrough := false
+		ast.Inspect(uf, func(n ast.Node) bool {
+			if c, ok := n.(*ast.CallExpr); ok && exprString(c.Fun) == "syncqueue.NewPassthroughSyncQueue" {
+				passthrough = true
+			}
+			return true
+		})
+		fmt.Fprintf(&b, "def queueIsPassthrough : Bool := %v\n", passthrough)
+		doc := ""
+		if syncFn.Doc != nil {
+			doc = strings.ToLower(syncFn.Doc.Text())
+		}
+		fmt.Fprintf(&b, "/-- the doc comment of `ClusterInfo.Sync` says it is only called from one thread (it takes no lock) -/\n")
+		fmt.Fprintf(&b, "def syncDocumentedSingleThreaded : Bool := %v\n", strings.Contains(doc, "single thread"))
 		b.WriteString("end KG.Gen.C11\n")
 		g.Emit("C11.lean", b.String())
 	})
